@@ -472,7 +472,7 @@ Section WKinds.
   Proof.
     intros Hr Hd Hf Ho Hw. destruct HW as [A1 A2 A3 A4]. constructor; rewrite ?Hr, ?Hd, ?Hf; auto.
     - pose proof (sum_upd rdw ls t l l' Hl) as Hs. unfold rdw in Hs at 2 4. rewrite Ho in Hs. lia.
-    - xpt u; [rewrite Hw, <- Hp|]; auto.
+    - xpt u; [rewrite Hw, <- Hp|]; apply A2.
     - intros D. destruct (A3 D) as [a Ha]. exists a. ptw Hl. destruct (Nat.eqb_spec a t) as [->|Hne]; [rewrite Hw, <- Hp|]; auto.
   Qed.
 
@@ -481,8 +481,8 @@ Section WKinds.
   Proof.
     intros Hh. destruct (dirty g) eqn:D; [exfalso|reflexivity].
     destruct (W3 _ _ HW D) as [a Ha]. pose proof (wropen_holdsX _ Ha) as Hxa.
-    destruct (excl_facts _ _ _ H1 Hxa t) as [E1 E2]. rewrite Hp, Hlo in *.
-    destruct Hh as [[Hx Hw]|Hs]; [|lia]. specialize (E2 Hx). subst. rewrite Hp in Ha. congruence.
+    destruct (excl_facts _ _ _ H1 Hxa t) as [E1 E2]. rewrite Hp in E2. rewrite Hlo in E1.
+    destruct Hh as [[Hx Hw]|Hs]; [|lia]. specialize (E2 Hx). rewrite <- E2 in Ha. rewrite Hp in Ha. congruence.
   Qed.
 
   Lemma WK_rdb : (holdsX (at_ l) = true /\ wropen (at_ l) = false) \/ (1 <= shl l)%nat ->
@@ -516,7 +516,7 @@ Section WKinds.
     assert (rdrs g = O) as Hz.
     { rewrite A1. apply sum_all_zero. intros u. unfold rdw. destruct (rdopen (at_ (locof ls u))) eqn:E; [exfalso|reflexivity].
       rewrite <- Hp in Hx. destruct (excl_facts _ _ _ H1 Hx u) as [E1 E2].
-      destruct (rd_holds ls u HH E) as [Hu|Hu]; [|lia]. specialize (E2 Hu). subst. rewrite Hlo in E. congruence. }
+      destruct (rd_holds ls u HH E) as [Hu|Hu]; [|lia]. specialize (E2 Hu). rewrite E2 in E. rewrite Hlo in E. congruence. }
     constructor; rewrite ?Hr, ?Hd, ?Hf, ?Hc, ?A4, ?Hz; auto.
     - pose proof (sum_upd rdw ls t l l' Hl) as Hs. unfold rdw in Hs at 2 4. rewrite Ho, Ho' in Hs. lia.
     - intros _. exists t. ptw Hl. rewrite Nat.eqb_refl. exact Hw'.
@@ -564,4 +564,117 @@ Proof.
   step_cases Hs.
   all: try (specialize (HH2 eq_refl)).
   all: solveW H1 HW Hl.
+Qed.
+
+(* ================================================================== *)
+(* Layer 3: tasks, stamps, the queue and the flag                       *)
+(* ================================================================== *)
+Definition cdir (c : ctx) : option nat := match c with CDir tk => Some tk | CPre _ => None end.
+Definition bdir (b : bctx) : option nat := match b with BD tk => Some tk | BQ c _ _ => cdir c end.
+(* the task of the submit call in progress *)
+Definition ctask (p : pc) : option nat :=
+  match p with
+  | M_try tk | Q_lockt tk | Q_unlockt tk | Q_lockl tk | Q_unlockl tk | Q_store tk | M_unlock tk _ => Some tk
+  | DI_load c | DI_clear c | DI_lockl c | DI_unlockl c _ | T_lock c _ _ | T_unlock c _ _ => cdir c
+  | F_call b | F_rdb b | F_rde b | F_wrb b _ | F_wre b _ => bdir b
+  | _ => None
+  end.
+Inductive phase := PhNew | PhPushed | PhExec.
+Definition bexec (b : bctx) : phase := match b with BD _ => PhExec | BQ _ _ _ => PhNew end.
+Definition cphase (p : pc) : phase :=
+  match p with
+  | Q_unlockl _ | Q_store _ => PhPushed
+  | F_rdb b | F_rde b | F_wrb b _ | F_wre b _ => bexec b
+  | M_unlock _ _ => PhExec
+  | _ => PhNew
+  end.
+(* the tasks a drainer has taken out of the queue and not yet invoked *)
+Definition bpend (b : bctx) : list nat := match b with BQ _ tk r => tk :: r | BD _ => [] end.
+Definition brest (b : bctx) : list nat := match b with BQ _ _ r => r | BD _ => [] end.
+Definition lpend (p : pc) : list nat :=
+  match p with
+  | DI_unlockl _ lp => lp
+  | T_lock _ tk r => tk :: r
+  | F_call b => bpend b
+  | F_rdb b | F_rde b | F_wrb b _ | F_wre b _ => brest b
+  | T_unlock _ _ r => r
+  | _ => []
+  end.
+Definition clr (p : pc) : bool := match p with DI_lockl _ => true | _ => false end.
+Definition prechk (p : pc) : bool := match p with DI_load _ | DI_clear _ | DI_lockl _ => true | _ => false end.
+Definition postchk (p : pc) : bool := holdsX p && negb (prechk p).
+
+Lemma lpend_holdsX p : lpend p <> [] -> holdsX p = true.
+Proof. destruct p; cbn; congruence. Qed.
+Lemma clr_holdsX p : clr p = true -> holdsX p = true.
+Proof. destruct p; cbn; congruence. Qed.
+
+Fixpoint ordered (f : nat -> nat) (l : list nat) : Prop :=
+  match l with [] => True | a :: r => (forall b, In b r -> (f a < f b)%nat) /\ ordered f r end.
+Lemma ordered_app f l1 l2 :
+  ordered f (l1 ++ l2) <-> ordered f l1 /\ ordered f l2 /\ (forall a b, In a l1 -> In b l2 -> (f a < f b)%nat).
+Proof.
+  induction l1 as [|x r IH]; cbn.
+  - intuition.
+  - rewrite IH. split.
+    + intros [H1 [H2 [H3 H4]]]. repeat split; auto.
+      * intros b Hb. apply H1. apply in_or_app. auto.
+      * intros a b [->|Ha] Hb; [apply H1; apply in_or_app; auto|auto].
+    + intros [[H1 H2] [H3 H4]]. repeat split; auto.
+      intros b Hb. apply in_app_or in Hb as [Hb|Hb]; auto.
+Qed.
+Lemma ordered_ext f f' l : (forall x, In x l -> f x = f' x) -> ordered f l -> ordered f' l.
+Proof.
+  induction l as [|a r IH]; cbn; auto. intros He [H1 H2]. split.
+  - intros b Hb. rewrite <- (He a), <- (He b); auto.
+  - apply IH; auto.
+Qed.
+Lemma ordered_head_notin f a r : ordered f (a :: r) -> ~ In a r.
+Proof. cbn. intros [H _] Hin. specialize (H a Hin). lia. Qed.
+
+Definition pst (h : ghost) (tk : nat) : nat := match tpush h tk with Some p => p | None => O end.
+
+Record SInv (g : glob) (ls : list loc) : Prop := {
+  (* fresh task ids carry no stamps *)
+  S0 : forall tk, (ntasks g <= tk)%nat ->
+       tpush (gh g) tk = None /\ tret (gh g) tk = None /\ texec (gh g) tk = None /\ tcount (gh g) tk = O;
+  (* stamps are in the past and in program order *)
+  S1i : forall tk, (tk < ntasks g)%nat -> (tinv (gh g) tk < clock (gh g))%nat;
+  S1p : forall tk p, tpush (gh g) tk = Some p -> (tinv (gh g) tk < p < clock (gh g))%nat;
+  S1r : forall tk r, tret (gh g) tk = Some r -> (r < clock (gh g))%nat /\
+        (texec (gh g) tk <> None \/ exists p, tpush (gh g) tk = Some p /\ (p < r)%nat);
+  S1e : forall tk e, texec (gh g) tk = Some e -> (e < clock (gh g))%nat;
+  (* the submit call in progress of each thread *)
+  S2 : forall u tk, ctask (pcof ls u) = Some tk ->
+       (tk < ntasks g)%nat /\ tsub (gh g) tk = u /\ tret (gh g) tk = None /\
+       match cphase (pcof ls u) with
+       | PhNew => tpush (gh g) tk = None /\ texec (gh g) tk = None
+       | PhPushed => tpush (gh g) tk <> None
+       | PhExec => tpush (gh g) tk = None /\ texec (gh g) tk <> None
+       end;
+  S3 : forall tk, (tk < ntasks g)%nat -> tret (gh g) tk = None -> ctask (pcof ls (tsub (gh g) tk)) = Some tk;
+  (* pushed and not yet invoked = in a drainer's local list or in the queue, in push order *)
+  S4 : forall u tk, In tk (lpend (pcof ls u) ++ queue g) ->
+       (tk < ntasks g)%nat /\ texec (gh g) tk = None /\ tpush (gh g) tk <> None;
+  S5 : forall u, ordered (pst (gh g)) (lpend (pcof ls u) ++ queue g);
+  S6 : forall tk, tpush (gh g) tk <> None -> texec (gh g) tk = None ->
+       In tk (queue g) \/ exists u, In tk (lpend (pcof ls u));
+  (* the flag: a queued task whose submit call has returned is announced *)
+  S7 : forall tk, In tk (queue g) -> tret (gh g) tk = None \/ flag g = true \/ exists u, clr (pcof ls u) = true;
+  (* after its own check / swap a direct-path thread has every earlier-returned task in hand *)
+  S8 : forall u tk0, postchk (pcof ls u) = true -> ctask (pcof ls u) = Some tk0 ->
+       forall f r, In f (queue g) -> tret (gh g) f = Some r -> (tinv (gh g) tk0 < r)%nat;
+  (* exactly once *)
+  S9 : forall tk, tcount (gh g) tk = match texec (gh g) tk with Some _ => 1%nat | None => O end;
+  (* real-time order *)
+  S10 : forall f k r e', tret (gh g) f = Some r -> (r < tinv (gh g) k)%nat -> (k < ntasks g)%nat ->
+        texec (gh g) k = Some e' -> exists e, texec (gh g) f = Some e /\ (e < e')%nat
+}.
+
+(* only the owner of the outer mutex has a local list *)
+Lemma lpend_only_owner g ls t u : Inv1 g ls -> holdsX (pcof ls t) = true -> u <> t -> lpend (pcof ls u) = [].
+Proof.
+  intros H1 Ht Hne. destruct (lpend (pcof ls u)) eqn:E; [reflexivity|exfalso].
+  assert (holdsX (pcof ls u) = true) as Hu by (apply lpend_holdsX; congruence).
+  destruct (excl_facts _ _ _ H1 Ht u) as [_ E2]. auto.
 Qed.
